@@ -146,12 +146,17 @@ class SimHTTPTransport(httpx.AsyncBaseTransport):
         exc = beh.get("exc")
         lat = beh.get("latency", 0.0)
         if exc in ("ConnectTimeout",):
-            await anyio.sleep(to.get("connect") if to.get("connect") is not None else lat)
+            if to.get("connect") is None:
+                await anyio.sleep_forever()   # no connect timeout configured: a connection attempt that never completes never fails either
+            await anyio.sleep(to.get("connect"))
             sim.rec("http", "raise:" + exc, None)
             sim.fault("http_exc:" + exc)
             raise _mk_exc(exc, request)
         if exc == "ReadTimeout":
-            await anyio.sleep(to.get("read") if to.get("read") is not None else lat)
+            if to.get("read") is None:
+                sim.rec("http", "silent-server-and-no-read-timeout", None)
+                await anyio.sleep_forever()   # the server took the request and stays silent; without a read timeout nothing ever ends the wait
+            await anyio.sleep(to.get("read"))
             sim.rec("http", "raise:" + exc, None)
             sim.fault("http_exc:" + exc)
             raise _mk_exc(exc, request)
